@@ -39,14 +39,15 @@ PLAN = {
     "C02": dict(
         title="Each layer's forward pass computes its defining operator",
         level="proof",
-        verus=["C02_convolve.rs", "C02_deconv_forward.rs", "C02_maxpool_forward.rs", "C02_pad3d.rs", "C17_network_forward.rs", "C02_dense.rs", "C02_forward_glue.rs"],
+        verus=["C02_convolve.rs", "C02_deconv_forward.rs", "C02_maxpool_forward.rs", "C02_pad3d.rs", "C17_network_forward.rs", "C02_dense.rs", "C02_forward_glue.rs", "C02_flat_view.rs"],
         kani=True,
         undecided_clauses=["max-pool: inputs are required to be above f32::MIN (the scan's start value); an element equal to f32::MIN in a 1x1 window would "
                            "record index (0,0)",
                            "dense W x + b is a bounded Kani harness (2->2); a network's prediction = composition of its layers is proved at the level of abstract layer functions (units network._forward and network.forward: fold over the layers, with skip / loop handling)",
                            "the glue of the four forward functions is proved at the level of abstract operations (units dense.forward, conv/deconv/maxpool.forward.glue: W x + b then "
                            "activation; padding extents and kernel order; dropout only when training; flatten only when flagged); that the kernels' preconditions (rectangular "
-                           "operands, sizes in range) hold where they are called is read (Convolution::create validates them), and the flat-input view is a bounded Kani region"],
+                           "operands, sizes in range) hold where they are called is read (Convolution::create validates them); the flat-input view of the three spatial layers is proved for every size "
+                           "(units *.flat_view, R49) and additionally run by bounded Kani regions with the real chunks_exact"],
     ),
     "C04": dict(
         title="Training is ordered mini-batch gradient-sum descent",
@@ -69,7 +70,7 @@ PLAN = {
     "C08": dict(
         title="Announced layer shapes equal produced shapes; transitions lose nothing",
         level="proof",
-        verus=["C08_output_size.rs", "C08_flat_accept.rs", "C02_convolve.rs", "C02_deconv_forward.rs", "C02_maxpool_forward.rs", "C02_pad3d.rs"],
+        verus=["C08_output_size.rs", "C08_flat_accept.rs", "C02_convolve.rs", "C02_deconv_forward.rs", "C02_maxpool_forward.rs", "C02_pad3d.rs", "C02_flat_view.rs"],
         kani=True,
         native_checks=[("isqrt.floor", "(size as f32).sqrt() as usize == floor(sqrt(size)) for every size < 2^24: the contract of the opaque "
                                        "isqrt_f32 assumed by the flat-size units, by exhaustion on the real expression"),
